@@ -233,6 +233,58 @@ def real_read(name, doc):
     return Ok([(c.start, c.end) for c in cs.get_captions(langs[0])] if langs else [])
 
 
+DFXP_ATOMS = ["hello", "a & b", "<i>x</i>", "1 < 2 > 0", "x]]>y", "{1}{2}", "-->", "WEBVTT", "<sami", "</tt>", "</TT>",
+              "Scenarist_SCC V1.0", "\u00e9\u4e2d", "&amp;", "w"]
+
+
+def run_dfxp_nodes(ctx, res):
+    """DFXP from the text nodes (request 2003 fmt 0 = model/OwnWriteDfxp.v over the time builders' DfxpWriteDoc.v): one
+    language, captions of 1-3 text lines made of marker words, integer times below 24 h.  Model document == the real
+    DFXPWriter's document, and the real document is detected as DFXP (C20_own_nodes_dfxp)."""
+    from pycaption import DFXPWriter, DFXPReader
+    rng = ctx.rng
+    dist = res["distribution"]
+    reqs, items = [], []
+    for _ in range(ctx.n(60, 3000)):
+        lang = rng.choice(["en-US", "fr", "pt-BR", "x"])
+        caps, wire = [], []
+        t = rng.randrange(0, 10 ** 7)
+        for _ in range(rng.randint(1, 4)):
+            dur = rng.randrange(1, 5 * 10 ** 6)
+            lines = [" ".join(rng.choice(DFXP_ATOMS) for _ in range(rng.randint(1, 3))) for _ in range(rng.randint(1, 3))]
+            nodes, wn = [], []
+            for i, l in enumerate(lines):
+                if i:
+                    nodes.append(CaptionNode.create_break())
+                    wn.append([1])
+                nodes.append(CaptionNode.create_text(l))
+                wn.append([0, l])
+            caps.append(Caption(t, t + dur, nodes))
+            wire.append([t, t + dur, wn])
+            t += dur + rng.randrange(0, 3 * 10 ** 6)
+        out = impl.call(lambda: DFXPWriter().write(CaptionSet({lang: CaptionList(caps)})))
+        if not isinstance(out, Ok):
+            bump(dist, "G_writer_raised_DFXP")
+            continue
+        reqs.append((2003, [0, lang, wire]))
+        items.append((lang, wire, out.v))
+    for (lang, wire, doc), r in zip(items, oracle_batch(reqs)):
+        res["evaluations"] += 1
+        bump(dist, "G_writer_model_cases_DFXP")
+        if r == [-1] or r[0] != doc:
+            res["disagreements"].append({"input": repr((lang, wire))[:2000], "stream": "G", "fmt": "DFXP",
+                                         "what": "DFXP writer model (DfxpWriteDoc through OwnWriteDfxp) differs from the writer",
+                                         "impl": doc[:600], "model": (r[0][:600] if r != [-1] else "rejected")})
+            continue
+        det = impl.call(lambda: pycaption.detect_format(doc))
+        if not (isinstance(det, Ok) and det.v is DFXPReader):
+            res["violations"].append({"kind": "own-output-not-recognised:theorem-instance", "fmt": "DFXP", "shape": "theorem-instance",
+                                      "det": repr(det), "what": "DFXP writer output is not detected as DFXP",
+                                      "input": repr((lang, wire))[:2000], "document": doc[:4000], "replay": "own-detect", "stream": "G"})
+        else:
+            bump(dist, "G_in_theorem_domain_DFXP")
+
+
 def run_read(ctx, res, extra_cases):
     """'that reader reads the document' on the read-back domain of C20_own_read_mdvd (and the SRT domain, executed)"""
     dist = res["distribution"]
@@ -269,11 +321,9 @@ def run_read(ctx, res, extra_cases):
         bump(dist, "H_in_read_back_domain_" + name)
         res["nontrivial"].add(("H", name, hash(doc)))
         if not (isinstance(model, Ok) and model.v == expected):
-            if name == "MicroDVD":      # contradicts C20_own_read_mdvd
-                res["disagreements"].append({"input": describe(cs), "stream": "H", "fmt": name,
-                                             "what": "reader model does not return the expected captions inside the theorem's domain"})
-            else:
-                bump(dist, "H_srt_reader_model_differs_from_expected(info)")
+            # contradicts C20_own_read_mdvd / C20_own_read_srt: extraction / wire broken
+            res["disagreements"].append({"input": describe(cs), "stream": "H", "fmt": name,
+                                         "what": "reader model does not return the expected captions inside the theorem's domain"})
         if not (isinstance(rd, Ok) and rd.v == expected):
             res["violations"].append({
                 "kind": "own-output-not-read-back:read-domain", "fmt": name, "shape": "read-domain",
